@@ -970,6 +970,71 @@ impl World {
         let price = last.1 * d / last.2;
         Some((price * (d - limit) / d, price * (d + limit) / d))
     }
+    /// the vAMM's raw reserve snapshots in index order: (quote reserve, base reserve, timestamp in seconds)
+    pub fn vamm_snapshots(&self, v: usize) -> Vec<(u128, u128, u64)> {
+        let mut p = contract_prefix(self.vamms[v].as_str());
+        p.extend(len_prefixed(b"reserve_snapshot"));
+        let m = self.store.0.borrow();
+        let mut snaps: Vec<(u64, u128, u128, u64)> = vec![];
+        for (k, val) in m.iter() {
+            if k.starts_with(&p) && k.len() == p.len() + 8 {
+                let mut ib = [0u8; 8];
+                ib.copy_from_slice(&k[p.len()..]);
+                let j: serde_json::Value = serde_json::from_slice(val).unwrap_or_default();
+                let g = |f: &str| -> u128 { j[f].as_str().and_then(|s| s.parse().ok()).unwrap_or(0) };
+                snaps.push((u64::from_be_bytes(ib), g("quote_asset_reserve"), g("base_asset_reserve"), (g("timestamp") / 1_000_000_000) as u64));
+            }
+        }
+        snaps.sort();
+        snaps.into_iter().map(|s| (s.1, s.2, s.3)).collect()
+    }
+    /// Reference for the vAMM's time-weighted closing quote (OutputTwap): the quote the curve would exchange for
+    /// `amount` base at each reserve snapshot (q*s/(b+s) rounded down when base is added, q*s/(b-s) rounded up when it
+    /// is removed), each weighted by the time the snapshot was in effect inside [now - interval, now] (the covered
+    /// period if the history is shorter). None if a snapshot cannot fill the trade or the layout is unreadable.
+    pub fn ref_out_twap(&self, v: usize, dir: &Direction, amount: u128, interval: u64) -> Option<u128> {
+        let snaps = self.vamm_snapshots(v);
+        if snaps.is_empty() || amount == 0 {
+            return None;
+        }
+        let now = self.now();
+        let start = now.saturating_sub(interval);
+        let value = |q: u128, b: u128| -> Option<u128> {
+            use cosmwasm_std::Uint256;
+            let (q, b, s) = (Uint256::from(q), Uint256::from(b), Uint256::from(amount));
+            let r = match dir {
+                Direction::AddToAmm => q * s / (b + s),
+                Direction::RemoveFromAmm => {
+                    if b <= s {
+                        return None;
+                    }
+                    let d = b - s;
+                    (q * s + d - Uint256::from(1u8)) / d
+                }
+            };
+            r.to_string().parse::<u128>().ok()
+        };
+        let mut acc: u128 = 0;
+        let mut covered: u64 = 0;
+        let mut upper = now;
+        for (q, b, ts) in snaps.iter().rev() {
+            let lower = (*ts).max(start);
+            if upper > lower {
+                let dt = upper - lower;
+                acc = acc.checked_add(value(*q, *b)?.checked_mul(dt as u128)?)?;
+                covered += dt;
+            }
+            if *ts <= start {
+                break;
+            }
+            upper = lower;
+        }
+        if covered == 0 {
+            let (q, b, _) = snaps.last()?;
+            return value(*q, *b);
+        }
+        Some(acc / covered as u128)
+    }
     /// raw engine position records: storage key suffix -> bytes
     pub fn raw_positions(&self) -> BTreeMap<Vec<u8>, Vec<u8>> {
         let mut p = contract_prefix(self.engine.as_str());
